@@ -68,7 +68,7 @@ Definition mismatch (c : case) : bool :=
       let files := dedup (map (fun w : list Z * Z * Z =>
                                  let '(q, u, n) := w in walked cwd f ext q (mkI u n loff)) written) in
       let fm := find_model L cwd f ext p files in
-      negb (valid_name p && forallb (fun w : list Z * Z * Z => valid_name (fst (fst w))) written
+      negb (path_name_valid p && forallb (fun w : list Z * Z * Z => path_name_valid (fst (fst w))) written
             && Nat.eqb (length files) (length written)
             && same_starts fm found
             && Bool.eqb has_any (negb (Nat.eqb (length fm) 0))
@@ -137,8 +137,8 @@ Definition spec_fail (c : case) : bool :=
          nothing else is found under p *)
       let ts := tokenize (f ++ ext) in
       let mine := filter (fun w : list Z * Z * Z => name_eqb (squeeze (fst (fst w))) (squeeze p)) written in
-      let ok_w := fun w : list Z * Z * Z => let '(q, u, n) := w in valid_name q && encodable loff ts (mkI u n loff) in
-      wf_toks ts && identifies ts && valid_name p && forallb ok_w written &&
+      let ok_w := fun w : list Z * Z * Z => let '(q, u, n) := w in path_name_valid q && encodable loff ts (mkI u n loff) in
+      wf_toks ts && identifies ts && path_name_valid p && forallb ok_w written &&
       negb (forallb (fun w : list Z * Z * Z =>
                        let '(q, u, n) := w in mem_start (trunc_start ts (mkI u n loff)) found) mine
             && forallb (fun w : list Z * Z * Z => mem_name (squeeze (fst (fst w))) listed) written
